@@ -1,4 +1,5 @@
 """C09 — static rules enforced exactly: ill-formed rejected, well-formed accepted."""
+import re
 from ..guards import ne, sh
 from ..mir import parent_fn
 from ..panics import label_names
@@ -867,7 +868,120 @@ def r8_static_tables_are_the_documented_ones(ctx):
     r5_builtin_tables(ctx)
 
 
-RULES = [("C09-R1", r1a_typing_tables), ("C09-R1b", r1b_accepted_is_evaluable), ("C09-R1c", r1c_inferred_types), ("C09-R1d", r1d_inferred_type_is_sound), ("C09-R2", r2_rule_presence), ("C09-R3", r3_context_per_function), ("C09-R4", r4_declared_type_follows_latest_declaration), ("C09-R5", r5_every_child_is_checked), ("C09-R6", r6_scope_of_a_declaration), ("C09-R7", r7_fixpoints_run_to_the_end), ("C09-R8", r8_static_tables_are_the_documented_ones)]
+def r9_return_types_are_inferred_in_the_function_s_own_scope(ctx):
+    """A call is typed with the callee's inferred return type, which is computed ahead of the body, when the enclosing block is
+    entered.  Two things must hold for that type to be the type of what the function returns:
+    (a) names that belong to the function - its parameters and the variables it declares - are not looked up in the scopes
+        that happen to be open at that moment (`make x get "s"` outside, `do f(x) start return x end` inside: f(5) is a number);
+        the pre-inference is preceded by something that makes the function's parameter list known to the resolver;
+    (b) a function that can fall off its end returns null on that path: unless every path ends in `return`, Null takes part in
+        the inferred type (otherwise `make r get f(false)  r minus 1` is accepted and the runtime meets a null it was promised
+        could not occur)."""
+    pre = ctx.need("resolver::Resolver::predeclare_block_functions")
+    ctx.touch(pre)
+    infs = [c for c in pre.calls() if (c.callee or "").endswith("Resolver::infer_function_return_type")]
+    if not infs:
+        ctx.note("predeclare_block_functions no longer pre-infers return types: clause (a) has nothing to check")
+    for c in infs:
+        # anything before the call, inside the same loop iteration, that hands the parameter list to the resolver:
+        # a call taking `<pending>.params` (or the pending definition itself besides `.body`) with &mut self, or a store of it
+        handed = False
+        from .c03 import common_loop_head
+        for c2 in pre.calls():
+            if c2 is c or not pre.dominates(c2.block, c.block):
+                continue
+            if not common_loop_head(pre, c2.block, c.block):
+                continue        # the registration loop in front also sees the parameters; it runs before, not per inference
+            args = [sh(ne(pre.deep(a))) for a in c2.args]
+            if any(re.search(r"\.params\b|param_names", a) for a in args) and "self" in args:
+                handed = True
+        # the inference routine itself may take the parameters
+        if len(c.args) > 2 or any(re.search(r"\.params\b", sh(ne(pre.deep(a)))) for a in c.args[1:]):
+            handed = True
+        if handed:
+            ctx.ok("return-type|own-names-known", pre.where(c.block), "the function's parameter list reaches the resolver before its return type is pre-inferred")
+        else:
+            ctx.bad("return-type|own-names-looked-up-outside", pre.where(c.block), "the return type of a function is pre-inferred from its body while nothing tells the resolver which names are the function's own: `return x` is typed with whatever variable x is visible where the function is *defined*, so a parameter or local that shadows an outer variable of another type gives the function the wrong return type and valid calls are rejected (`make x get \"hello\"  start do f(x) start return x end  shout(f(5) minus 1) end`)")
+    inf = ctx.need("resolver::Resolver::infer_function_return_type")
+    ctx.touch(inf)
+    fam = [inf] + list(ctx.lib.closures_of(inf.id))
+    # (b) a predicate over the body that says "every path returns", and Null joining the types when it does not
+    preds = []
+    for g in fam:
+        for c in g.calls():
+            cal = c.callee or ""
+            f2 = ctx.lib.fns.get(cal)
+            if f2 is not None and f2.locals and f2.locals[0]["ty"] == "bool" and any("Block" in l["ty"] for l in f2.locals[1:f2.argc + 1]):
+                preds.append(c)
+    nulls = [st for g in fam for b in sorted(g.live) for st in g.blocks[b]["s"] if st["rv"]["k"] == "agg" and str(st["rv"].get("adt", "")).endswith("ValueType") and st["rv"].get("variant") == "Null"]
+    if preds and len(nulls) >= 1:
+        ctx.ok("return-type|implicit-null", inf.where(preds[0].block), "%s decides whether the body can fall off its end; Null joins the inferred type when it can" % preds[0].callee.split("::")[-1])
+    else:
+        ctx.bad("return-type|implicit-null-ignored", inf.where(), "the inferred return type is built from the explicit `return` statements only: a function with `return 1` on one path and no return on another is typed number although it returns null there, so arithmetic on its result is accepted and the runtime panics on the null (`do f(a) start if to say (a) start return 1 end end  make r get f(false)  shout(r minus 1)`)")
+
+
+def r10_static_types_stay_true_under_assignment(ctx):
+    """The checker types every later use of a variable with the type recorded for it.  `x get e` can store a value of another
+    type, so the statement has to do one of two things with the type of e: reject the assignment, or stop trusting the
+    recorded type (make the variable dynamic).  If it does neither, the documented `make foo` / `foo get 5` leaves foo typed
+    null for good - `foo add 1` is rejected - and `make x get "abc"  x get 5` leaves x a string, on which the effect
+    classifier bases 'cannot trap'."""
+    arm = arm_region(ctx, "resolver::Resolver::check_stmt", "AssignExisting")
+    if arm is None:
+        ctx.bad("assign-type|anchor", "src/resolver.rs", "cannot find the AssignExisting arm of check_stmt")
+        return
+    fn, blocks = arm
+    ctx.touch(fn)
+    infers = [c for c in fn.calls() if c.block in blocks and (c.callee or "").endswith("Resolver::infer_expr_type")]
+    reacts = []
+    for c in fn.calls():
+        if c.block not in blocks:
+            continue
+        cal = c.callee or ""
+        g = ctx.lib.fns.get(cal)
+        if cal.endswith("Resolver::emit_error"):
+            reacts.append(("reject", c))
+        elif g is not None and g.file == "src/resolver.rs" and writes_value_type(ctx, g):
+            reacts.append(("widen", c))
+    inline = [b for b in blocks for st in fn.blocks[b]["s"] if st["lhs"]["p"] and ((st["rv"]["k"] == "agg" and str(st["rv"].get("adt", "")).endswith("ValueType")) or ("ValueType" in fn.locals[st["lhs"]["l"]]["ty"] and "mut" in fn.locals[st["lhs"]["l"]]["ty"]))]
+    guarded = [r for r in reacts if any(fn.dominates(i.block, r[1].block) for i in infers)] + ([("widen-inline", None)] if inline and infers else [])
+    kinds = {k for k, _c in guarded if k != "reject"} | ({"reject"} if any(k == "reject" and "TypeMismatch" in sh(ne(fn.deep(c.args[2]))) for k, c in guarded if c is not None) else set())
+    if kinds:
+        ctx.ok("assign-type|%s" % "+".join(sorted(kinds)), fn.where(min(blocks)), "the type of the assigned expression is inferred and the variable's recorded type %s" % ("is widened when it differs" if "reject" not in kinds else "is enforced"))
+    else:
+        ctx.bad("assign-type|neither-checked-nor-widened", fn.where(min(blocks)), "an assignment to an existing variable neither compares the type of the assigned expression with the variable's recorded type nor updates that type: after `make foo` (typed null) `foo get 5` the checker still rejects `foo add 1`, and after `make x get \"abc\"  x get 5` it still believes `x.len()` cannot trap")
+
+
+def arm_region(ctx, fid, variant):
+    """Blocks of the match arm of `fid` taken for statement kind `variant` (edge-dominated by that outcome of the dispatch)."""
+    fn = ctx.lib.fns.get(fid)
+    if fn is None:
+        return None
+    for S in sorted(fn.live):
+        if fn.blocks[S]["t"]["k"] != "switch":
+            continue
+        si = fn.switch_info(S)
+        if si["kind"] == "discr" and si["ty"].endswith("parser::Stmt"):
+            for lab, tgt in fn.succ[S]:
+                if label_names(fn, S, [lab], si) == {variant}:
+                    region = {x for x in fn.reach([tgt], removed_nodes=[S]) if fn.edge_dominated(x, S, [lab])} | {tgt}
+                    return fn, region
+    return None
+
+
+def writes_value_type(ctx, g, depth=0):
+    """Does body g (or a closure of it) store a ValueType through a projection (an entry of the scope tables)?"""
+    for h in [g] + list(ctx.lib.closures_of(g.id)):
+        for b in sorted(h.live):
+            for st in h.blocks[b]["s"]:
+                if st["lhs"]["p"] and st["rv"]["k"] == "agg" and str(st["rv"].get("adt", "")).endswith("ValueType"):
+                    return True
+                if st["lhs"]["p"] and "ValueType" in h.locals[st["lhs"]["l"]]["ty"] and "mut" in h.locals[st["lhs"]["l"]]["ty"]:
+                    return True     # `*slot_type = <ValueType>` through a &mut ValueType
+    return False
+
+
+RULES = [("C09-R1", r1a_typing_tables), ("C09-R1b", r1b_accepted_is_evaluable), ("C09-R1c", r1c_inferred_types), ("C09-R1d", r1d_inferred_type_is_sound), ("C09-R2", r2_rule_presence), ("C09-R3", r3_context_per_function), ("C09-R4", r4_declared_type_follows_latest_declaration), ("C09-R5", r5_every_child_is_checked), ("C09-R6", r6_scope_of_a_declaration), ("C09-R7", r7_fixpoints_run_to_the_end), ("C09-R8", r8_static_tables_are_the_documented_ones), ("C09-R9", r9_return_types_are_inferred_in_the_function_s_own_scope), ("C09-R10", r10_static_types_stay_true_under_assignment)]
 
 EXPLANATION = (
     "R1: the accept/reject arms of check_expr are evaluated arm-by-arm (first-match semantics over name-resolved HIR patterns) "
@@ -890,6 +1004,9 @@ EXPLANATION += (
 )
 EXPLANATION += (
     " R1d: the inferred type of every operator cell the checker accepts is defined and is either dynamic or contains every kind the run-time routine can yield for operands of those static types (both tables read out of the code by partial evaluation; two genuine defects, D27/D28, were found and repaired). R7: every fixpoint flag in the resolver (return-type inference of mutually calling functions) is reset once per round and only raised with a constant. R8 (= C01-R5): the built-ins' name / arity / return-type tables the checker types method calls from equal the documented signatures."
+)
+EXPLANATION += (
+    " R9: a function's return type is pre-inferred (a) only after its parameter list has reached the resolver inside the inference loop, so that its own names are not looked up among the outer variables, and (b) with Null joining the type unless a predicate over the body says every path returns. R10: the AssignExisting arm infers the type of the assigned expression and either rejects a mismatch or widens the variable's recorded type (a store of a ValueType into the scope table, inline or through a helper). Four genuine defects (D32-D34, and D31 in the scanner) were found through these and repaired."
 )
 ASSUMPTIONS = ["the reference predicates in rules/c09.py state the documented typing rules (docs/*.md plus the rule comments in resolver.rs)", "infer_expr_type yields the operand's static type"]
 TRUSTED = ["rustc nightly HIR name resolution and MIR", "nsx exporter", "nsverif pattern evaluator / partial evaluator"]
